@@ -172,8 +172,9 @@ Definition utf8_string (l : list Z) : bytes := flat_map utf8_encode l.
 
 (* ---------------------------------------------------------------- hash keys *)
 
-(* object.HashKey{Type, FltValue, IntValue, StrValue}; FltValue = None stands for NaN, which is never
-   equal to itself as a Go map key; +0 and -0 are the same key (Go == on the float field). *)
+(* object.HashKey{Type, FltValue, IntValue, StrValue}; a NaN has the key {float, StrValue "NaN"} (Go's NaN is never
+   equal to itself as a map key, so Float.HashKey does not put it into FltValue; FltValue = None is kept in the record
+   for a NaN field and does not occur); +0 and -0 are the same key (Go == on the float field). *)
 Record hkey := HK { hk_tag : tag; hk_flt : option Z; hk_int : Z; hk_str : bytes }.
 
 Definition hashkey (v : value) : option hkey :=
@@ -181,7 +182,7 @@ Definition hashkey (v : value) : option hkey :=
   | VNil => Some (HK TNil (Some 0) 0 [])
   | VBool b => Some (HK TBool (Some 0) (if b then 1 else 0) [])
   | VInt z => Some (HK TInt (Some 0) z [])
-  | VFloat n m => Some (HK TFloat (if is_nan m then None else Some (fkey n m)) 0 [])
+  | VFloat n m => Some (HK TFloat (Some (if is_nan m then 0 else fkey n m)) 0 (if is_nan m then [78; 97; 78] else []))
   | VByte z => Some (HK TByte (Some 0) z [])
   | VStr s => Some (HK TStr (Some 0) 0 s)
   | VBytes s => Some (HK TBytes (Some 0) 0 s)
